@@ -6,6 +6,7 @@ from .. import astq, nf
 from ..errors import AnalysisError
 from ..interp import Interp, Obj, SimRaise
 from ..nf import Rat
+from . import integrate_kit as ik
 from . import solverkit, solvers
 
 RH = "torchsde/_core/methods/reversible_heun.py"
@@ -92,6 +93,17 @@ def r15_2(ctx):
     ctx.floor("R15.2", 2)
 
 
+def r15_3(ctx):
+    ik.rule_last_steps(ctx, "R15.3", drift=True)
+
+
 def run(ctx):
     ctx.guard(r15_1)
     ctx.guard(r15_2)
+    ctx.guard(r15_3)
+    # "reconstructs every state of the forward trajectory": the reversed solve walks the reflected forward grid only
+    # if the grid is a function of (ts[0], ts[-1], dt) alone -- output times must not move step boundaries (rules of C12)
+    from . import c12
+    ctx.guard(c12.r12_1)
+    ctx.guard(c12.r12_2)
+    ctx.guard(c12.ik.rule_tiling, "R12.6")
